@@ -103,6 +103,7 @@ type vf28PreOp struct {
 	KeyUpdate bool // TLS 1.3 only: client-initiated key update
 	Request   bool // update_requested
 	Size      int  // else: a client->server message of this size
+	UntilSeq  int  // else (> 0): 1-byte messages until the client's write sequence number is this value
 }
 
 type vf28Case struct {
@@ -224,6 +225,22 @@ func vf28Execute(c *vf28Case, callKS bool) (res *vf28Run) {
 			}
 			continue
 		}
+		if op.UntilSeq > 0 {
+			seq := func() uint64 {
+				var v uint64
+				for _, b := range p.Cli.out.seq {
+					v = v<<8 | uint64(b)
+				}
+				return v
+			}
+			for seq() < uint64(op.UntilSeq) {
+				if _, err := send(1); err != nil {
+					res.err = fmt.Errorf("pre: %w", err)
+					return
+				}
+			}
+			continue
+		}
 		if _, err := send(op.Size); err != nil {
 			res.err = fmt.Errorf("pre: %w", err)
 			return
@@ -286,6 +303,13 @@ func vf28GenCase(rt *rapid.T) *vf28Case {
 		}
 		c.Pre = append(c.Pre, op)
 	}
+	// sequence positions around the carries of the 64-bit record sequence number (it is part of the nonce)
+	switch k := rapid.IntRange(0, 11).Draw(rt, "seqpos"); {
+	case k <= 3:
+		c.Pre = append(c.Pre, vf28PreOp{UntilSeq: []int{254, 255, 256, 511}[k]})
+	case k == 4 && rapid.IntRange(0, 7).Draw(rt, "seqpos_far") == 0:
+		c.Pre = append(c.Pre, vf28PreOp{UntilSeq: 65535})
+	}
 	c.Ns = []int{vf28GenN(rt, "n")}
 	if rapid.IntRange(0, 2).Draw(rt, "extracalls") == 0 {
 		c.Ns = append(c.Ns, vf28GenN(rt, "n2"))
@@ -320,6 +344,8 @@ func vf28Describe(c *vf28Case) map[string]any {
 	for _, op := range c.Pre {
 		if op.KeyUpdate {
 			pre += fmt.Sprintf("KU(%v) ", op.Request)
+		} else if op.UntilSeq > 0 {
+			pre += fmt.Sprintf("until-seq=%d ", op.UntilSeq)
 		} else {
 			pre += fmt.Sprintf("%d ", op.Size)
 		}
@@ -356,6 +382,11 @@ func vf28Check(st *vfStats, t vfFataler, c *vf28Case) {
 		posClass = "pos=after-records"
 	}
 	st.Class(posClass)
+	for _, op := range c.Pre {
+		if op.UntilSeq > 0 {
+			st.Class(fmt.Sprintf("pos=write-seq-%d", op.UntilSeq))
+		}
+	}
 	st.Class(fmt.Sprintf("suite=%#04x/%#04x", prim.suite, prim.vers))
 	st.Class("client=" + map[bool]string{true: c.ClientKind, false: "parrot"}[c.ClientKind == "custom" || c.ClientKind == "golang"])
 	for i, err := range prim.ksErr {
